@@ -373,9 +373,13 @@ def main(argv=None):
     ctx = mp.get_context("spawn")
     tasks = [(pid, a.tier, seed, i, nworkers, deadline, known) for i in range(nworkers)]
     results = []
-    with ctx.Pool(nworkers, maxtasksperchild=1) as pool:
-        for r in pool.imap_unordered(worker, tasks):
-            results.append(r)
+    from concurrent.futures import ProcessPoolExecutor, as_completed
+
+    # executor workers are not daemonic, so a worker may own child processes (fresh-process oracle)
+    with ProcessPoolExecutor(nworkers, mp_context=ctx) as pool:
+        futs = [pool.submit(worker, t) for t in tasks]
+        for f in as_completed(futs):
+            results.append(f.result())
 
     harness_errors = [r["harness_error"] for r in results if r["harness_error"]]
     if harness_errors:
